@@ -28,7 +28,7 @@ func init() {
 // runC16 is the shard driver: the register of a process cannot be reset, so
 // every history runs in its own child process (this binary, sub-mode C16H).
 func runC16(c *mon.Ctx) {
-	c.Rule("one CHILD PROCESS per history (the register cannot be reset). A history is a seeded random sequence of 12..45 operations over: RegisterProfile(new name, P1- or P2-based, sharing the JSON profile member of its base) / re-register an existing name (base profiles, earlier extras) / register a profile whose claims type has no profile field / has no json tag on it (then register the same name properly), NewClaims(registered | unregistered), DecodeClaimsFromCBOR / JSON (token of any known or not-yet-registered profile, and documents declaring two profiles at once under the two profile members), mutate one instance (setters, writes through its pointer fields and byte slices, container Add/Replace, canonical-name overwrite), observe another. 0..8 extra profiles per history. Offline-style trace checker with model = set of successfully registered names: after EVERY registration attempt the register snapshot (hook H1) must equal the model (failed attempt: unchanged; successful: grown by exactly that entry) and a probe battery (NewClaims + CBOR decode + JSON decode for every name of the universe, registered or not) must be unchanged for every name other than the one just registered and must follow the model for that one; every created/decoded instance is a new pointer with its own container / profile pointers and its observation is unaffected by any mutation of another instance; every JSON dispatch is repeated 40x and all repetitions must agree on (error?, type, canonical profile, observation); hook H3 records the register visit order of each dispatch. Inconclusive if fewer than 2 distinct visit orders were seen. distinct_nontrivial = distinct operation-kind sequences")
+	c.Rule("one CHILD PROCESS per history (the register cannot be reset). A history is a seeded random sequence of 12..45 operations over: RegisterProfile(new name, P1- or P2-based, sharing the JSON profile member of its base) / re-register an existing name (base profiles, earlier extras) / register a profile whose claims type has no profile field / has no json tag on it (then register the same name properly) / whose profile field is identified by its name and followed by other fields (register snapshot must record THAT field's JSON member), NewClaims(registered | unregistered), DecodeClaimsFromCBOR / JSON (token of any known or not-yet-registered profile, and documents declaring two profiles at once under the two profile members), mutate one instance (setters, writes through its pointer fields and byte slices, container Add/Replace, canonical-name overwrite), observe another. 0..8 extra profiles per history. Offline-style trace checker with model = set of successfully registered names: after EVERY registration attempt the register snapshot (hook H1) must equal the model (failed attempt: unchanged; successful: grown by exactly that entry) and a probe battery (NewClaims + CBOR decode + JSON decode for every name of the universe, registered or not) must be unchanged for every name other than the one just registered and must follow the model for that one; every created/decoded instance is a new pointer with its own container / profile pointers and its observation is unaffected by any mutation of another instance; every JSON dispatch is repeated 40x and all repetitions must agree on (error?, type, canonical profile, observation); hook H3 records the register visit order of each dispatch. Inconclusive if fewer than 2 distinct visit orders were seen. distinct_nontrivial = distinct operation-kind sequences")
 	self, err := os.Executable()
 	if err != nil {
 		c.Inconclusive("cannot locate own executable: " + err.Error())
@@ -65,6 +65,7 @@ func runC16(c *mon.Ctx) {
 	c.Floor("registrations-refused:existing-name", 100)
 	c.Floor("registrations-refused:no-profile-field", 50)
 	c.Floor("registrations-refused:no-json-tag", 50)
+	c.Floor("registrations-ok:by-name", 30)
 	c.Floor("json-dispatch-repetitions", 10000)
 	c.Floor("instances-created", 2000)
 	c.Floor("mutations", 1000)
@@ -385,6 +386,10 @@ func runC16History(c *mon.Ctx) {
 					sort.Strings(names)
 					name = names[g.R.Intn(len(names))]
 					p, what = extprof.NumberedProfile{Name: name, Base: 1 + g.R.Intn(2)}, "existing-name"
+				case kind == 3 && g.R.Intn(3) == 0:
+					// a well-formed but unusual profile: its profile field is found by NAME and is not the last field
+					name = fmt.Sprintf("http://example.com/by-name/%d", step)
+					p, what, expectOK = extprof.ByNameProfile{Name: name}, "by-name", true
 				case kind == 3:
 					name = fmt.Sprintf("http://example.com/defective/%d", step)
 					if g.R.Intn(2) == 0 {
@@ -420,7 +425,11 @@ func runC16History(c *mon.Ctx) {
 					stop = true
 					return
 				}
-				if err == nil {
+				if err == nil && what == "by-name" {
+					reg[name] = entry{"extprof.ByNameProfile", extprof.ByNameJSONTag}
+					c.Count("registrations-ok")
+					c.Count("registrations-ok:by-name")
+				} else if err == nil {
 					np := p.(extprof.NumberedProfile)
 					tag := "eat-profile"
 					if np.Base == 1 {
@@ -450,7 +459,7 @@ func runC16History(c *mon.Ctx) {
 						return
 					}
 				}
-				if err == nil {
+				if err == nil && what != "by-name" {
 					np := p.(extprof.NumberedProfile)
 					want := typeFor(np.Base)
 					if !strings.HasPrefix(now["new|"+name], want+"|"+name+"|") {
